@@ -54,6 +54,15 @@ def toOPM : Render.Expr → OPM.Expr
   | .not e => .pre 201 (toOPM e)
   | .neg e => .pre 202 (toOPM e)
   | .btw _ x lo hi => .btw (toOPM x) (toOPM lo) (toOPM hi)
+  | .inl _ x _ => .bin (binId "in") (toOPM x) (.atom 997)
+  | .ite _ _ _ => .atom 998
+  | .cast _ => .atom 998
+  | .tnil => .atom 998
+  | .tcons _ _ => .atom 998
+
+def itemsOf : Render.Expr → List Render.Expr
+  | .tcons e rest => e :: itemsOf rest
+  | _ => []
 
 /-- print the normalised expression with the `Grouping`s `saParens` decided -/
 partial def pr : Render.Expr → OPM.Expr → String
@@ -69,18 +78,55 @@ partial def pr : Render.Expr → OPM.Expr → String
   | .neg e, .pre _ a => "-" ++ pr e a
   | .btw n x lo hi, .btw a b c =>
     pr x a ++ (if n then " NOT BETWEEN " else " BETWEEN ") ++ pr lo b ++ " AND " ++ pr hi c
+  | .ite c r e, _ =>
+    let top := fun (x : Render.Expr) => pr x (SaParen.saParens saPolicy (toOPM x))
+    let cond := match toOPM c with
+      | .atom _ => top c
+      | _ => "(" ++ top c ++ ")"
+    "CASE WHEN " ++ cond ++ " THEN " ++ top r ++ " ELSE " ++ top e ++ " END"
+  | .cast e, _ => "CAST(" ++ pr e (SaParen.saParens saPolicy (toOPM e)) ++ " AS BIGINT)"
+  | .inl n x items, .bin _ a _ =>
+    let top := fun (y : Render.Expr) => pr y (SaParen.saParens saPolicy (toOPM y))
+    (if n then "(" else "") ++ pr x a ++ (if n then " NOT IN (" else " IN (") ++
+      ", ".intercalate ((itemsOf items).map top) ++ ")" ++ (if n then ")" else "")
   | _, _ => "?"
 
 /-- = `okE` (kept separate for the protocol flag) -/
 def modelledE : Render.Expr → Bool
   | .cmp _ l r => modelledE l && modelledE r
   | .ar _ l r => modelledE l && modelledE r
-  | .and l r => modelledE l && modelledE r
-  | .or l r => modelledE l && modelledE r
+  | .and l r => modelledE l && modelledE r && !isIte l && !isIte r
+  | .or l r => modelledE l && modelledE r && !isIte l && !isIte r
   | .not e => modelledE e && !typedArith (saNormE e)
   | .neg e => modelledE e
   | .btw _ x lo hi => modelledE x && modelledE lo && modelledE hi
+  | .ite c r e => modelledE c && modelledE r && modelledE e
+  | .cast e => modelledE e
+  | .inl _ x items => modelledE x && modelledE items
+  | .tcons e rest => modelledE e && modelledE rest
   | _ => true
+
+/-- the sub-expressions that are printed as operator trees of their own (inside CASE, CAST, IN lists) -/
+partial def subRoots : Render.Expr → List Render.Expr
+  | .cmp _ l r => subRoots l ++ subRoots r
+  | .ar _ l r => subRoots l ++ subRoots r
+  | .and l r => subRoots l ++ subRoots r
+  | .or l r => subRoots l ++ subRoots r
+  | .not e => subRoots e
+  | .neg e => subRoots e
+  | .btw _ x lo hi => subRoots x ++ subRoots lo ++ subRoots hi
+  | .ite c r e => [c, r, e]
+  | .cast e => [e]
+  | .inl _ x items => subRoots x ++ itemsOf items
+  | _ => []
+
+/-- (`saOk`, the engine regroups the print to the printed tree) for the expression and, recursively,
+for every operator tree nested in a CASE / CAST / IN list -/
+partial def deepFlags (n : Render.Expr) : Bool × Bool :=
+  let o := toOPM n
+  let p := SaParen.saParens saPolicy o
+  let here := (SaParen.saOk saPolicy o, OPM.parse sqliteP (OPM.print sqliteP p) [] none == some p)
+  (subRoots n).foldl (fun acc e => let f := deepFlags e; (acc.1 && f.1, acc.2 && f.2)) here
 
 partial def readE : List String → Option (Render.Expr × List String)
   | "null" :: rest => some (.null, rest)
@@ -110,6 +156,25 @@ partial def readE : List String → Option (Render.Expr × List String)
   | "neg" :: rest => do
     let (e, rest) ← readE rest
     some (.neg e, rest)
+  | "ite" :: rest => do
+    let (c, rest) ← readE rest
+    let (r, rest) ← readE rest
+    let (e, rest) ← readE rest
+    some (.ite c r e, rest)
+  | "cast" :: rest => do
+    let (e, rest) ← readE rest
+    some (.cast e, rest)
+  | "in" :: k :: rest => do
+    let k ← k.toNat?
+    let (x, rest) ← readE rest
+    let rec items : Nat → List String → Option (Render.Expr × List String)
+      | 0, rest => some (.tnil, rest)
+      | n + 1, rest => do
+        let (e, rest) ← readE rest
+        let (tl, rest) ← items n rest
+        some (.tcons e tl, rest)
+    let (its, rest) ← items k rest
+    some (.inl false x its, rest)
   | "btw" :: rest => do
     let (x, rest) ← readE rest
     let (lo, rest) ← readE rest
@@ -132,8 +197,8 @@ def handle (line : String) : String :=
       let n := saNormE e
       let o := toOPM n
       let p := SaParen.saParens saPolicy o
-      let re := OPM.parse sqliteP (OPM.print sqliteP p) [] none == some p
-      pr n p ++ s!" | ok={b01 (okE e)} mod={b01 (modelledE e)} saok={b01 (SaParen.saOk saPolicy o)} regroup={b01 re}"
+      let fl := deepFlags n
+      pr n p ++ s!" | ok={b01 (okE e)} mod={b01 (modelledE e)} saok={b01 fl.1} regroup={b01 fl.2}"
     | _ => "bad-line"
   | "J" :: on :: jt =>
     let jt := " ".intercalate jt
